@@ -32,5 +32,9 @@ man = {
     "notes": "See DESIGN.md. known_findings.jsonl lists recorded/fixed defects. All checks: ./check <id> --tier quick|thorough.",
     "not_applicable": na,
 }
+lines = []
+for f in sorted(glob.glob(os.path.join(V, "findings", "C*.jsonl"))):
+    lines += [l.strip() for l in open(f) if l.strip()]
+open(os.path.join(V, "known_findings.jsonl"), "w").write("\n".join(lines) + ("\n" if lines else ""))
 json.dump(man, open(os.path.join(V, "MANIFEST.json"), "w"), indent=1)
 print(f"MANIFEST.json: {len(checks)} checks, {len(na)} not claimed")
